@@ -190,8 +190,9 @@ func (b *bufferComp) Impl(c Case) (out []string) {
 		}
 	}()
 	for _, o := range c.Ops {
+		o.Name = strings.Replace(o.Name, "bufr ", "buf ", 1)
 		switch o.Name {
-		case "buf new":
+		case "buf new", "buf newacc":
 			closeRun()
 			gen++
 			mem, q, maxBytes, hasDir := int(o.Ints[0]), int(o.Ints[1]), o.Ints[2], o.Ints[3] != 0
@@ -209,6 +210,10 @@ func (b *bufferComp) Impl(c Case) (out []string) {
 			r = &bufRun{dir: rootPath, root: root, mf: mf, buf: nb, held: map[int]base.LogChunk{}}
 			r.args = nb.RegisterNewConsumer()
 			nb.Start()
+			if o.Name == "buf newacc" {
+				// no wait: recovery must be complete when Start returns
+				r.buf.Accept(base.LogChunk{ID: bufChunkID(int(o.Ints[5])), Data: append([]byte{}, o.Bytes[0]...)})
+			}
 			out = append(out, r.state(waitFeeder("idle", "blocked"), ""))
 		case "buf accept":
 			r.buf.Accept(base.LogChunk{ID: bufChunkID(int(o.Ints[0])), Data: append([]byte{}, o.Bytes[0]...)})
@@ -244,6 +249,23 @@ func (b *bufferComp) Impl(c Case) (out []string) {
 				st = waitFeeder("idle", "blocked")
 			}
 			out = append(out, r.state(st, ""))
+		case "buf destroystalled":
+			// the consumer stalls: Destroy gives up waiting after its timeout; by then everything must be saved or counted
+			if r.destroyD != nil {
+				out = append(out, "not-enabled")
+				continue
+			}
+			d := make(chan struct{})
+			r.destroyD = d
+			defs.IntermediateChannelTimeout = 100 * time.Millisecond
+			returned := make(chan struct{})
+			go func(bf base.ChunkBufferer) { bf.Destroy(); close(returned); close(d) }(r.buf)
+			select {
+			case <-returned:
+			case <-time.After(5 * time.Second):
+			}
+			defs.IntermediateChannelTimeout = 2 * time.Second
+			out = append(out, r.state(feederState(), ""))
 		case "buf destroy":
 			if r.destroyD != nil {
 				out = append(out, "not-enabled")
@@ -325,6 +347,7 @@ func (b *bufferComp) Oracle(c Case, impl []string) string {
 		if i >= len(impl) {
 			break
 		}
+		o.Name = strings.Replace(o.Name, "bufr ", "buf ", 1)
 		line := impl[i]
 		if strings.HasPrefix(line, "panic") {
 			return "the buffer panicked: " + line
@@ -341,7 +364,7 @@ func (b *bufferComp) Oracle(c Case, impl []string) string {
 		}
 		lastFiles = files
 		switch o.Name {
-		case "buf new":
+		case "buf new", "buf newacc":
 			memCap, maxBytes = int(o.Ints[0]), o.Ints[2]
 			heldByConsumer = map[int]bool{}
 			order = order[:0]
@@ -354,11 +377,30 @@ func (b *bufferComp) Oracle(c Case, impl []string) string {
 			sort.Ints(ids)
 			// recovered chunks: as many as the queue holds, in name order
 			ip, _ := strconv.Atoi(kv["ip"])
+			if o.Name == "buf newacc" {
+				// the accepted chunk may have been spilled already: it is not a recovered file
+				nid := int(o.Ints[5])
+				var rec []int
+				for _, id := range ids {
+					if id != nid {
+						rec = append(rec, id)
+					}
+				}
+				ids = rec
+				if kv["it"] == "0" {
+					ip-- // the new chunk was unloaded and counted as persistent input
+				}
+			}
 			for k, id := range ids {
 				if k < ip {
 					order = append(order, id)
 					accepted[id] = files[id]
 				}
+			}
+			if o.Name == "buf newacc" {
+				nid := int(o.Ints[5])
+				accepted[nid] = hx(o.Bytes[0])
+				order = append(order, nid)
 			}
 		case "buf accept":
 			id := int(o.Ints[0])
@@ -394,7 +436,7 @@ func (b *bufferComp) Oracle(c Case, impl []string) string {
 		d, _ := strconv.ParseInt(kv["dr"], 10, 64)
 		dropped = d
 		// the queue's files stay within the size limit: whenever a file is written, the directory must still be within it
-		if o.Name != "buf new" && prevFiles != nil {
+		if o.Name != "buf new" && o.Name != "buf newacc" && prevFiles != nil {
 			var total int64
 			wrote := -1
 			for id, h := range files {
@@ -421,7 +463,7 @@ func (b *bufferComp) Oracle(c Case, impl []string) string {
 			}
 			pos++
 		}
-		if o.Name == "buf finish" {
+		if o.Name == "buf finish" || o.Name == "buf destroystalled" {
 			// conservation at the end of a generation: confirmed, or a file with identical bytes, or counted dropped
 			missing := 0
 			for _, id := range order {
@@ -450,10 +492,11 @@ func (b *bufferComp) Class(c Case, impl []string) string {
 		if i >= len(impl) {
 			break
 		}
-		if o.Name == "buf new" && o.Ints[3] == 0 {
+		o.Name = strings.Replace(o.Name, "bufr ", "buf ", 1)
+		if (o.Name == "buf new" || o.Name == "buf newacc") && o.Ints[3] == 0 {
 			nodir = true
 		}
-		if o.Name == "buf new" && strings.Contains(impl[i], "ip=") && !strings.Contains(impl[i], "ip=0 ") {
+		if (o.Name == "buf new" || o.Name == "buf newacc") && strings.Contains(impl[i], "ip=") && !strings.Contains(impl[i], "ip=0 ") {
 			recovered = true
 		}
 		if o.Name == "buf handback" {
@@ -510,7 +553,12 @@ func (b *bufferComp) Generate(rng *rand.Rand, n int, emit func(Case)) {
 			if g == 0 {
 				fresh = 1
 			}
-			ops = append(ops, Op{Name: "buf new", Ints: []int64{int64(mem), int64(q), quota, hasDir, fresh}})
+			if g > 0 && rng.Intn(4) == 0 {
+				ops = append(ops, Op{Name: "buf newacc", Ints: []int64{int64(mem), int64(q), quota, hasDir, fresh, int64(nextID)}, Bytes: [][]byte{{byte(nextID), 1, 2}}})
+				nextID++
+			} else {
+				ops = append(ops, Op{Name: "buf new", Ints: []int64{int64(mem), int64(q), quota, hasDir, fresh}})
+			}
 			var held []int
 			outstanding := 0
 			for a := 0; a < nAcc || (outstanding > 0 && rng.Intn(3) > 0); {
@@ -554,7 +602,11 @@ func (b *bufferComp) Generate(rng *rand.Rand, n int, emit func(Case)) {
 					ops = append(ops, Op{Name: "buf confirm", Ints: []int64{int64(id)}})
 				}
 			}
-			ops = append(ops, Op{Name: "buf destroy"})
+			if rng.Intn(8) == 0 {
+				ops = append(ops, Op{Name: "buf destroystalled"})
+			} else {
+				ops = append(ops, Op{Name: "buf destroy"})
+			}
 			for id := first; id < nextID; id++ {
 				switch rng.Intn(3) {
 				case 0:
@@ -566,6 +618,17 @@ func (b *bufferComp) Generate(rng *rand.Rand, n int, emit func(Case)) {
 			ops = append(ops, Op{Name: "buf finish"})
 			_ = held
 		}
-		emit(Case{Ops: ops, Tag: "random"})
+		tag := "random"
+		for _, o := range ops {
+			if o.Name == "buf newacc" {
+				tag = "racy-start"
+			}
+		}
+		if tag == "racy-start" {
+			for k := range ops {
+				ops[k].Name = strings.Replace(ops[k].Name, "buf ", "bufr ", 1)
+			}
+		}
+		emit(Case{Ops: ops, Tag: tag})
 	}
 }
